@@ -87,6 +87,17 @@ Theorem rm_off_sources_intact : forall rel i ls s0 vs,
 Proof. exact rm_off_sources_intact_thm. Qed.
 Print Assumptions rm_off_sources_intact.
 
+(* a937acd: a destination name that denotes a regular file which is (UTIL_isSameFile) an output this command has
+   completed for ANOTHER input (own_refused) is never replaced: the segment of that source creates, removes and writes
+   nothing -- whatever -f, the answer at the prompt, --rm and the faults are -- and does not report success (unless the
+   source is skipped by --exclude-compressed before the destination is even looked at). *)
+Theorem own_output_not_replaced : forall i rm own s src p v ops r,
+  own_refused own s src p = true ->
+  file_ops (inv_for i own s src (DOwn p)) rm s src (DOwn p) v = (ops, r) ->
+  Forall nomod ops /\ r <> FThrow 0 /\ (r = FOk -> i_excl i = true).
+Proof. exact own_output_not_replaced_thm. Qed.
+Print Assumptions own_output_not_replaced.
+
 (* The prompts (UTIL_requireUserConfirmation as repaired in f7ae77e): unless the answer starts with 'y' or 'Y' -- a NUL
    byte, end of input and every other byte included -- a pre-existing regular file is never unlinked, truncated or
    written, in every intermediate state, also after SIGINT, under any fault. *)
